@@ -484,6 +484,7 @@ impl<'a, 'tcx> Cx<'a, 'tcx> {
             ("arg_count".into(), J::Num(body.arg_count as i128)),
             ("locals".into(), J::Arr(locals)),
             ("blocks".into(), J::Arr(blocks)),
+            ("generics".into(), generic_names(tcx, did)),
         ];
         if !promoted && matches!(dk, DefKind::Fn | DefKind::AssocFn) {
             let sig = tcx.fn_sig(did).instantiate_identity().skip_norm_wip();
@@ -505,6 +506,27 @@ impl<'a, 'tcx> Cx<'a, 'tcx> {
         }
         J::Obj(o)
     }
+}
+
+fn collect_generics(tcx: TyCtxt<'_>, did: rustc_hir::def_id::DefId, out: &mut Vec<J>) {
+    let g = tcx.generics_of(did);
+    if let Some(p) = g.parent {
+        collect_generics(tcx, p, out);
+    }
+    for p in &g.own_params {
+        if matches!(p.kind, rustc_middle::ty::GenericParamDefKind::Type { .. }) {
+            let n = p.name.to_string();
+            if !n.starts_with('<') {
+                out.push(s(n));
+            }
+        }
+    }
+}
+
+fn generic_names(tcx: TyCtxt<'_>, did: rustc_hir::def_id::DefId) -> J {
+    let mut out = Vec::new();
+    collect_generics(tcx, did, &mut out);
+    J::Arr(out)
 }
 
 fn crate_tables(tcx: TyCtxt<'_>) -> (J, J) {
@@ -541,6 +563,7 @@ fn crate_tables(tcx: TyCtxt<'_>) -> (J, J) {
                     ("repr_int".into(), s(format!("{:?}", repr.int))),
                     ("repr_align".into(), s(format!("{:?}", repr.align))),
                     ("vis".into(), s(format!("{:?}", tcx.visibility(did)))),
+                    ("generics".into(), generic_names(tcx, did)),
                     ("variants".into(), J::Arr(vars)),
                     ("span".into(), s(span_str(tcx, tcx.def_span(did)))),
                 ]));
@@ -549,6 +572,7 @@ fn crate_tables(tcx: TyCtxt<'_>) -> (J, J) {
                 let st = tcx.type_of(did).instantiate_identity().skip_norm_wip();
                 let mut o = vec![
                     ("self_ty".into(), s(ty_str(st))),
+                    ("generics".into(), generic_names(tcx, did)),
                     ("of_trait".into(), J::Bool(of_trait)),
                     ("span".into(), s(span_str(tcx, tcx.def_span(did)))),
                 ];
